@@ -2,8 +2,9 @@
    (the line format of harness/src/tracesink.rs; `#dump` = intermediate snapshot)
    Output:  <RcModel snapshots joined by " || ">  ## SPEC <tree> | Q <quirks>  ## CONTRACT ok | bad@<k> <op name>
    The snapshot text is the one harness/src/bin/rcdom.rs prints for the real RcDom.
-   argv: --fixed  selects the variant of the model in which the selectedcontent
-   search inspects node.data instead of self.data. *)
+   (CONTRACT also says bad@<k> clone_not_finite when the finiteness premise of C20_refines fails.)
+   argv: --fixed  selects the model of the repaired option->selectedcontent code (rrun true);
+   without it the model of the pinned commit, whose search inspects self.data. *)
 let fixed = Array.exists (fun a -> a = "--fixed") Sys.argv
 
 (* ---------- strings ---------- *)
@@ -237,6 +238,9 @@ let () =
              | Ok s ->
                if !contract = "ok" && not (contract_ok !sp op) then
                  contract := Printf.sprintf "bad@%d %s" !k (op_name op);
+               (* premise of C20_refines: the option's subtree (template contents included) is finite *)
+               if !contract = "ok" && not (clone_finite_op !sp op) then
+                 contract := Printf.sprintf "bad@%d clone_not_finite" !k;
                sp := apply !sp op;
                st := rapply fixed s op
              | Panic _ -> ());
